@@ -147,6 +147,10 @@ func execInternSeq(s *Sexp) string {
 		p.RegisterDefaultCodecs()
 		plencnullAdd(p)
 		var results []string
+		// the "…reuse" kinds decode every input into the SAME variable (the field is
+		// present in every input, so each decode must overwrite what the last one left)
+		var reuseStr internStr
+		var reuseNull internNull
 		for _, it := range s.List[2:] {
 			d, err := unhx(it.Atom)
 			if err != nil {
@@ -155,6 +159,19 @@ func execInternSeq(s *Sexp) string {
 			buf := append(refTag(1, 2), lenPrefixed(d)...)
 			var got string
 			switch kind {
+			case "strreuse":
+				if err := p.Unmarshal(buf, &reuseStr); err != nil {
+					return "err"
+				}
+				got = reuseStr.S
+			case "nullreuse":
+				if err := p.Unmarshal(buf, &reuseNull); err != nil {
+					return "err"
+				}
+				if !reuseNull.S.Valid {
+					return "invalid"
+				}
+				got = reuseNull.S.String
 			case "str":
 				var v internStr
 				if err := p.Unmarshal(buf, &v); err != nil {
@@ -461,7 +478,7 @@ func runC19(r *Runner, g *Gen, tier string) string {
 	n := scale(tier, 3000, 200000)
 	pool := [][]byte{[]byte("a"), []byte("ab"), []byte("abc"), []byte("b"), nil, {0}, {0, 0}, {0xff, 0xfe}, []byte("hello"), []byte("hell"), []byte("héllo")}
 	for i := 0; i < n; i++ {
-		items := []*Sexp{A("internseq"), A(g.r.Pick("str", "str", "null"))}
+		items := []*Sexp{A("internseq"), A(g.r.Pick("str", "str", "null", "strreuse", "nullreuse"))}
 		k := 1 + g.r.Intn(10)
 		var local [][]byte
 		for j := 0; j < k; j++ {
